@@ -407,7 +407,9 @@ def prebuild(ctx):
     text, _ = c14_clients.gen_coq()
     (COQ / "C14" / "GenRangeClients.v").write_text(text)
     ctx.coq_build_cached(["C14/GenRangeClients.v", "C14/RangeClients.v", "C14/RangeRefine.v", "C14/PropsClients.v"], deps=RANGE_PRE, timeout=900)
-    from vlib import c14_pass
+    ctx.coq_build_cached(FIX_FILES, deps=_fix_deps(), timeout=900)
+    from vlib import c14_pass, c14a_part
+    c14a_part.prebuild(ctx)
     c14_pass.prebuild(ctx)
 
 
@@ -716,6 +718,94 @@ def part_memloc(ctx):
     return n
 
 
+# ---------------------------------------------------------------- the analysis result, validated per function
+FIX_FILES = ["C14/RangeFix.v", "C14/RangeFixProofs.v", "C14/PropsFix.v"]
+
+
+def _fix_deps():
+    return (RANGE_PRE + [f"C14/{f}.v" for f in RANGE_PROOF_FILES] + [RANGE_POST[0]]
+            + ["C14/GenRangeClients.v", "C14/RangeClients.v", "C14/RangeRefine.v"])
+
+
+def part_fixpoint(ctx):
+    """VariableRangeAnalysis as a whole (worklist, widening, phis, branch refinement on CFG edges): every result the
+    real analysis produces while corpus contracts are compiled is checked by the verified validator
+    (coq/C14/RangeFix.v, theorem range_fixpoint_sound), and the transfer functions of the model are tied to
+    `_run_block` by comparing exit states and per-instruction state hashes."""
+    import warnings
+    from vlib import c14_fix, c14_pass_corpus as PC
+    from vyper.compiler import compile_code
+    from vyper.compiler.settings import OptimizationLevel, Settings
+    b = ctx.coq_build_cached(FIX_FILES, deps=_fix_deps(), timeout=900)
+    rnd = ctx.rng("fixpoint")
+    progs = PC.select(ctx.tier, rnd)
+    levels = [OptimizationLevel.GAS] if ctx.tier == "quick" else [OptimizationLevel.GAS, OptimizationLevel.CODESIZE, OptimizationLevel.O3]
+    nfail = 0
+    with warnings.catch_warnings():
+        warnings.simplefilter("ignore")
+        with c14_fix.Observer(max_insts=600 if ctx.tier == "quick" else 1200, rnd=rnd, fuzz_paths=3 if ctx.tier == "quick" else 8) as obs:
+            for c in progs:
+                for lvl in levels:
+                    try:
+                        compile_code(c["src"], output_formats=["bytecode"], settings=Settings(experimental_codegen=True, optimize=lvl))
+                    except Exception:
+                        nfail += 1
+    errs = obs.samples.pop("__errors__", [])
+    samples = sorted(obs.samples.values(), key=lambda s_: (-s_["nblocks"], s_["name"], s_["ninsts"]))
+    trivial = [s_ for s_ in samples if s_["nblocks"] <= 1]
+    samples = [s_ for s_ in samples if s_["nblocks"] > 1]
+    cap = 90 if ctx.tier == "quick" else 100000
+    if len(samples) > cap:
+        # the largest third, plus a seeded sample of the rest
+        head = samples[:cap // 3]
+        samples = head + rnd.sample(samples[cap // 3:], cap - len(head))
+    found = False
+    for ff in obs.fuzz_fail:
+        found = True
+        ctx.violation("failing-input", "a variable takes a value outside the range VariableRangeAnalysis reports", ff,
+                      key="fixpoint:fuzz:" + ff["variable"] + ":" + ff["instruction"][:60])
+    if errs:
+        ctx.violation("correspondence-broken", "cannot export the analysis result: " + errs[0], {"errors": errs[:5]})
+    stats = {"analysis_runs": obs.calls, "distinct_functions": len(obs.samples), "single_block_skipped": len(trivial),
+             "too_big_skipped": obs.skipped_big, "validated": 0, "rejected": 0, "exit_state_mismatch": 0, "hash_mismatch": 0,
+             "dynamic_executions": obs.fuzz_runs, "compile_failures": nfail,
+             "instructions": sum(s_["ninsts"] for s_ in samples), "blocks": sum(s_["nblocks"] for s_ in samples)}
+    if (COQ / "C14" / "RangeFix.vo").exists() and samples:
+        try:
+            res = c14_fix.evaluate(samples, shard=max(1, len(samples) // 12), timeout=1500)
+        except RuntimeError as e:
+            res = None
+            ctx.violation("correspondence-broken", "the validator could not be evaluated on the exported analysis results", {"error": str(e)[-1500:]})
+        if res is not None:
+            for s_, r in zip(samples, res):
+                ok = len(r) >= 1 and r[0] == 1
+                if ok:
+                    stats["validated"] += 1
+                else:
+                    stats["rejected"] += 1
+                    if not found and stats["rejected"] <= 2:
+                        ctx.violation("theorem-broken", "range_fixpoint_sound does not apply: the result of VariableRangeAnalysis is not a "
+                                      "post-fixpoint of the proved transfer/refinement functions (function " + s_["name"] + ")",
+                                      {"theorem": "range_fixpoint_sound (check f E = false)", "function": s_["text"][:6000],
+                                       "entry_states": s_["E"][:60]})
+                if not s_["unvisited"] and len(r) >= 3:
+                    if r[1] != 0:
+                        stats["exit_state_mismatch"] += 1
+                    if r[2] != s_["hash"]:
+                        stats["hash_mismatch"] += 1
+                    if (r[1] != 0 or r[2] != s_["hash"]) and ok and stats["exit_state_mismatch"] + stats["hash_mismatch"] <= 2 and not found:
+                        ctx.violation("correspondence-broken", "the model's transfer functions disagree with _run_block/_evaluate_inst on "
+                                      "function " + s_["name"] + " (exit states or per-instruction states differ)",
+                                      {"function": s_["text"][:6000], "exit_blocks_differ": r[1], "hash_model": r[2], "hash_real": s_["hash"]})
+    if not b["ok"] and not found:
+        ctx.violation("theorem-broken", f"{b.get('failed_lemma')} in {b['file']}",
+                      {"theorem": b.get("failed_lemma"), "file": b["file"], "coq_output": b["out"][-1500:]})
+    ctx.corr["range_fixpoint"] = stats
+    if samples:
+        ctx.samples.append({"validated_function": samples[0]["name"], "blocks": samples[0]["nblocks"], "instructions": samples[0]["ninsts"]})
+    return stats["validated"] + stats["dynamic_executions"]
+
+
 def run(ctx):
     import time
     total = 0
@@ -730,6 +820,14 @@ def run(ctx):
     ctx.log(f"range clients {time.time()-t:.0f}s"); t = time.time()
     total += part_memloc(ctx)
     ctx.log(f"memloc {time.time()-t:.0f}s"); t = time.time()
+    total += part_fixpoint(ctx)
+    ctx.log(f"fixpoint validator {time.time()-t:.0f}s"); t = time.time()
+    from vlib import c14a_part
+    total += c14a_part.part_algebraic(ctx)
+    ctx.log(f"algebraic/sccp {time.time()-t:.0f}s"); t = time.time()
+    from vlib import c14s_part
+    total += c14s_part.part_stack(ctx)
+    ctx.log(f"stack model {time.time()-t:.0f}s"); t = time.time()
     from vlib import c14_pass
     total += c14_pass.part_passes(ctx)
     ctx.log(f"passes {time.time()-t:.0f}s")
